@@ -48,7 +48,24 @@ func init() {
 }
 
 func drawSelection(rt *rapid.T) selection {
-	switch rapid.IntRange(0, 5).Draw(rt, "selkind") {
+	switch rapid.IntRange(0, 7).Draw(rt, "selkind") {
+	case 6, 7:
+		// names and tags overlapping: some checkers enabled by name while one of their tags is disabled
+		reg := core.Registry()
+		sel := selection{HasEnable: true, HasDis: true}
+		n := rapid.IntRange(2, 6).Draw(rt, "nnames")
+		for i := 0; i < n; i++ {
+			in := reg[rapid.IntRange(0, len(reg)-1).Draw(rt, "selname")]
+			sel.Enable = append(sel.Enable, in.Name)
+			if i == 0 && len(in.Tags) > 0 {
+				sel.Disable = append(sel.Disable, "#"+in.Tags[rapid.IntRange(0, len(in.Tags)-1).Draw(rt, "seltag")])
+			}
+		}
+		sel.Enable = append(sel.Enable, "#"+pickT(rt, "selEnableTag", []string{"diagnostic", "style", "performance"}), "dupSubExpr", "assignOp", "hugeParam")
+		if rapid.Bool().Draw(rt, "disableName") {
+			sel.Disable = append(sel.Disable, sel.Enable[rapid.IntRange(0, n-1).Draw(rt, "disname")])
+		}
+		return sel
 	case 0:
 		return selection{} // front-end default
 	case 1, 2:
